@@ -560,6 +560,8 @@ class Session:
             return self.set_breakpoints(arg)
         if cmd == "wait":
             return self.wait_bp_stop("continue")
+        if cmd == "sleep":
+            return self.d.pump(arg / 1000.0)
         raise ValueError(cmd)
 
 
@@ -657,20 +659,23 @@ def corpus_sessions(mos, probe, rng):
     p = Program(STEPOUT_PHA, probe)
     out.append(("stepout_after_pha", Session(mos, p, rng.randrange(1 << 30), None, 0, 0,
                                              script=[("setBreakpoints", [9]), ("stepOut",)])))
+    p2 = Program(SELF_LOOP, probe)
+    out.append(("self_loop", Session(mos, p2, rng.randrange(1 << 30), None, 0, 0,
+                                     script=[("setBreakpoints", [5]), ("continue",), ("sleep", 200), ("pause",)])))
     out.append(("stepout_clean", Session(mos, p, rng.randrange(1 << 30), None, 0, 0,
                                          script=[("setBreakpoints", [8]), ("stepOut",)])))
     return out
 
 
 # ------------------------------------------------------------------------------------------------ run
-def absorb(chk, name, s, dist, distinct, model):
+def absorb(chk, name, s, dist, distinct, model, protocol="StateHeld"):
     for k, v in s.stats.items():
         dist[k] = dist.get(k, 0) + v
     # trace inclusion: the recorded trace must be a behaviour of the protocol model
     hard = [f for f in s.failures if f[0] in ("hang", "died", "error", "harness")]
     if hasattr(s, "log") and not hard:
         try:
-            ok, det = accept_trace(model, s.prog, s.log)
+            ok, det = accept_trace(model, s.prog, s.log, protocol)
         except ValueError as e:
             ok, det = False, {"why": str(e)}
         if ok is None:
@@ -699,6 +704,8 @@ def absorb(chk, name, s, dist, distinct, model):
 
 def run(chk):
     rng = random.Random(chk.seed)
+    tr = common.translate_for(chk, ["dap"])          # lock structure + event table -> Gen/DapShape.v (ShapeError = broken tie)
+    protocol = tr.get("dap", {}).get("protocol") or "StateHeld"
     chk.proof = common.prove("C19")
     probe = Proc([common.build_probe()])
     model = Proc([common.build_model("c19")], timeout=180)
@@ -710,7 +717,7 @@ def run(chk):
     for name, s in corpus_sessions(mos, probe, rng):
         s.run()
         dist["sessions"] += 1
-        absorb(chk, name, s, dist, distinct, model)
+        absorb(chk, name, s, dist, distinct, model, protocol)
     budget = 1100 if thorough else 120
     for i in range(nsessions):
         if time.time() - t0 > budget:
@@ -722,7 +729,7 @@ def run(chk):
         s.run()
         dist["sessions"] += 1
         dist["sessions_sched"] += 1 if sched is not None else 0
-        absorb(chk, "random%d" % i, s, dist, distinct, model)
+        absorb(chk, "random%d" % i, s, dist, distinct, model, protocol)
         if i < 2:
             chk.sample({"program": prog.text, "sched": sched, "stops": s.stop_records[:8]})
     probe.stop()
